@@ -15,24 +15,24 @@ Definition WL : ledger :=
 (* at least as occupied: for every predicate on resource keys no more is available *)
 Definition r_le (R R' : res) : Prop := forall P, sumP P (r_avail R') <= sumP P (r_avail R).
 Definition w_wle (w w' : worker) : Prop := r_le (w_res w) (w_res w').
-Definition no_empty (a : allocs) : Prop := forall c, al_find c a <> Some [].
 Definition r_wok (R : res) : Prop :=
-  Res_ok R /\ Nonneg R /\ no_empty (r_allocs R) /\ NoDup (map fst (r_total R)) /\ nonneg_vec (r_total R).
+  Res_ok R /\ Nonneg R /\ NoDup (map fst (r_total R)) /\ nonneg_vec (r_total R).
 Definition w_wok (w : worker) : Prop := r_wok (w_res w).
 (* plain strategies, non-negative quantities, each resource name requested once (the keys may be `any` or specific) *)
 Definition w_sok (s : strategy) : Prop :=
   s_is_batch s = false /\ nonneg_vec (s_req s) /\ NoDup (req_names (s_req s)).
 
-Lemma sumP_nonneg P v : nonneg_vec v -> 0 <= sumP P v.
+Lemma g_sumP_nonneg P v : nonneg_vec v -> 0 <= sumP P v.
 Proof.
   induction 1 as [|[k q] v H _ IH]; cbn [sumP]; [lia|]. cbn [snd] in H. destruct (P k); lia.
 Qed.
 Lemma r_allocate_le R r c q R' o : 0 <= q -> r_allocate R r c q = (R', o) -> r_le R R'.
 Proof.
-  intros Hq H P. unfold r_allocate in H. destruct (r_available R r <? q); [inversion H; subst; lia|].
+  intros Hq H P. unfold r_allocate in H.
+  repeat match type of H with (if ?b then _ else _) = _ => destruct b; [inversion H; subst; lia|] end.
   destruct (alloc_loop r q (r_avail R)) as [v recs] eqn:E. inversion H; subst. cbn [r_avail].
   destruct (alloc_loop_spec _ _ _ _ _ E) as (C & _ & _ & _ & N). specialize (C P).
-  pose proof (sumP_nonneg P recs (N Hq)). lia.
+  pose proof (g_sumP_nonneg P recs (N Hq)). lia.
 Qed.
 Lemma alloc_seq_le req : forall R c R' o, nonneg_vec req -> alloc_seq R req c = (R', o) -> r_le R R'.
 Proof.
@@ -45,59 +45,56 @@ Proof.
     + inversion H; subst. eapply r_allocate_le; eauto.
 Qed.
 
-Lemma no_empty_append c recs a : no_empty a -> no_empty (al_append c recs a).
-Proof.
-  intros H c'. unfold al_append. destruct recs as [|x recs]; [apply H|].
-  destruct (comp_eqb c c') eqn:E.
-  - apply comp_eqb_eq in E. subst c'. rewrite al_find_set_same. intros X. inversion X as [X'].
-    destruct (al_get c a); discriminate.
-  - rewrite al_find_set_other by exact E. apply H.
-Qed.
-
 (* Resources.allocate_multiple on a well-formed ledger: only consumes, keeps the ledger well formed *)
 Lemma am_le R req c R' o : r_wok R -> nonneg_vec req -> r_allocate_multiple R req c = (R', o) -> r_le R R' /\ r_wok R'.
 Proof.
-  intros (HR & HN & HE & HD & HT) Hq H.
+  intros (HR & HN & HD & HT) Hq H.
   assert (r_total R' = r_total R) as ET by (eapply total_allocate_multiple; exact H).
   destruct o as [[]|e].
   - split.
     + unfold r_allocate_multiple in H. destruct (existsb _ req); [discriminate|].
-      destruct (alloc_seq R req c) as [R1 [u|e1]] eqn:Es; inversion H; subst. eapply alloc_seq_le; eauto.
+      destruct (alloc_seq R req c) as [R1 [u|e1]] eqn:Es; inversion H; subst.
+      intros P. cbn [r_avail]. exact (alloc_seq_le _ _ _ _ _ Hq Es P).
     + split; [eapply res_ok_allocate_multiple; eauto|]. split; [eapply nonneg_allocate_multiple; eauto|].
-      split; [|rewrite ET; auto].
-      destruct (allocate_multiple_exact _ _ _ _ HN Hq H) as (recs & Ea & _). rewrite Ea. apply no_empty_append. exact HE.
+      rewrite ET; auto.
   - destruct HR as [HI HDi].
-    rewrite (allocate_multiple_refusal R req c R' e HI HDi (HE c) H).
-    split; [intros P; lia|]. exact (conj (conj HI HDi) (conj HN (conj HE (conj HD HT)))).
+    rewrite (allocate_multiple_refusal_any R req c R' e HI HDi H).
+    split; [intros P; lia|]. exact (conj (conj HI HDi) (conj HN (conj HD HT))).
 Qed.
 
 Lemma w_wle_refl w : w_wle w w.
 Proof. intros P. lia. Qed.
 Lemma w_wle_trans a b c : w_wle a b -> w_wle b c -> w_wle a c.
 Proof. intros H1 H2 P. specialize (H1 P). specialize (H2 P). lia. Qed.
+(* Worker.place_task with a plain strategy either refuses at once (the task is already placed: nothing changes) or is
+   allocate_multiple on the worker's resources *)
 Lemma w_place_plain t s w : s_is_batch s = false ->
+  w_res (fst (w_place t s w)) = w_res w \/
   w_res (fst (w_place t s w)) = fst (r_allocate_multiple (w_res w) (s_req s) (CTask t)).
 Proof.
   intros Hb. unfold w_place. rewrite Hb.
-  destruct (r_allocate_multiple (w_res w) (s_req s) (CTask t)) as [R [u|e]]; reflexivity.
+  destruct (zmem t (w_placed w)); [left; reflexivity|].
+  right. destruct (r_allocate_multiple (w_res w) (s_req s) (CTask t)) as [R [u|e]]; reflexivity.
 Qed.
 Lemma w_wplace_le w t s : w_wok w -> w_sok s -> can WL w s = true -> w_wle w (wplace WL w t s).
 Proof.
-  intros Hok [Hb [Hq _]] _. unfold w_wle. cbn [wplace WL]. rewrite (w_place_plain t s w Hb).
-  destruct (r_allocate_multiple (w_res w) (s_req s) (CTask t)) as [R o] eqn:E. cbn [fst].
-  exact (proj1 (am_le _ _ _ _ _ Hok Hq E)).
+  intros Hok [Hb [Hq _]] _. unfold w_wle. cbn [wplace WL].
+  destruct (w_place_plain t s w Hb) as [E|E]; rewrite E; [intros P; lia|].
+  destruct (r_allocate_multiple (w_res w) (s_req s) (CTask t)) as [R o] eqn:E2. cbn [fst].
+  exact (proj1 (am_le _ _ _ _ _ Hok Hq E2)).
 Qed.
 Lemma w_wplace_ok w t s : w_wok w -> w_sok s -> can WL w s = true -> w_wok (wplace WL w t s).
 Proof.
-  intros Hok [Hb [Hq _]] _. unfold w_wok. cbn [wplace WL]. rewrite (w_place_plain t s w Hb).
-  destruct (r_allocate_multiple (w_res w) (s_req s) (CTask t)) as [R o] eqn:E. cbn [fst].
-  exact (proj2 (am_le _ _ _ _ _ Hok Hq E)).
+  intros Hok [Hb [Hq _]] _. unfold w_wok. cbn [wplace WL].
+  destruct (w_place_plain t s w Hb) as [E|E]; rewrite E; [exact Hok|].
+  destruct (r_allocate_multiple (w_res w) (s_req s) (CTask t)) as [R o] eqn:E2. cbn [fst].
+  exact (proj2 (am_le _ _ _ _ _ Hok Hq E2)).
 Qed.
 Lemma w_wreset_ok w : w_wok w -> w_wok (wreset WL w).
 Proof.
-  intros (_ & _ & _ & HD & HT). unfold w_wok, r_wok. cbn [wreset WL w_deepcopy w_res]. unfold r_deepcopy.
+  intros (_ & _ & HD & HT). unfold w_wok, r_wok. cbn [wreset WL w_deepcopy w_res]. unfold r_deepcopy.
   split; [split; [apply inv_new|apply dict_new; exact HD]|].
-  split; [apply nonneg_new; exact HT|]. split; [intros c; cbn; discriminate|]. cbn [r_total r_new]. auto.
+  split; [apply nonneg_new; exact HT|]. cbn [r_total r_new]. auto.
 Qed.
 Lemma w_can_antitone w w' s : w_wok w -> w_wok w' -> w_sok s -> w_wle w w' -> can WL w' s = true -> can WL w s = true.
 Proof.
@@ -107,12 +104,16 @@ Proof.
   unfold r_available, vec_quantity in *. specialize (Hle (fun k => res_match k (fst rq))). lia.
 Qed.
 
-(* under the fit test Worker.place_task never raises: the total `wplace` of the ledger interface is the state after
-   a successful placement, as in the scheduler's loop (place_task is only called after can_accomodate_strategy) *)
-Lemma w_place_succeeds t s w : w_wok w -> w_sok s -> can WL w s = true -> snd (w_place t s w) = Ok tt.
+(* under the fit test Worker.place_task raises only for a task that is already placed on the worker: the total
+   `wplace` of the ledger interface is otherwise the state after a successful placement, as in the scheduler's loop
+   (place_task is only called after can_accomodate_strategy) *)
+Lemma w_place_succeeds t s w : w_wok w -> w_sok s -> can WL w s = true -> zmem t (w_placed w) = false ->
+  snd (w_place t s w) = Ok tt.
 Proof.
-  intros (_ & HN & _) [Hb [Hq _]] Hc. cbn [can WL] in Hc. unfold w_fits in Hc. rewrite Hb in Hc. cbn [andb] in Hc.
-  rewrite orb_false_r in Hc. apply w_fit_place_succeeds; [exact HN|exact Hq|exact Hc|]. intros X. congruence.
+  intros (_ & HN & _) [Hb [Hq _]] Hc Hnp. cbn [can WL] in Hc. unfold w_fits in Hc. rewrite Hb in Hc. cbn [andb] in Hc.
+  rewrite orb_false_r in Hc.
+  destruct (proj1 (gt_iff_success (w_res w) (s_req s) (CTask t) HN Hq) Hc) as (R' & E).
+  unfold w_place. rewrite Hnp, Hb, E. reflexivity.
 Qed.
 
 Theorem WL_laws : ledger_laws WL w_wle w_wok w_sok.
@@ -125,7 +126,7 @@ Lemma w_new_ok id v : NoDup (map fst v) -> nonneg_vec v -> w_wok (w_new id v).
 Proof.
   intros HD HT. unfold w_wok, r_wok, w_new. cbn [w_res].
   split; [split; [apply inv_new|apply dict_new; exact HD]|].
-  split; [apply nonneg_new; exact HT|]. split; [intros c; cbn; discriminate|]. cbn [r_total r_new]. auto.
+  split; [apply nonneg_new; exact HT|]. cbn [r_total r_new]. auto.
 Qed.
 
 (* closed witness on the shared worker model: one worker with CPU:c0 x1 and CPU:c1 x1, tasks asking for
